@@ -34,6 +34,8 @@ type Op struct {
 	Spell   int    `json:"spell,omitempty"` // how the paths are spelled towards the implementation (0 = clean absolute)
 	Zone    int    `json:"zone,omitempty"`   // chtimes: the times are handed over in a fixed zone of this many seconds east of UTC that has no name (as time.Parse yields for "+02:00")
 	SpellB  int    `json:"spellb,omitempty"` // rename: the destination's spelling, chosen independently (-1 = clean absolute)
+	Far     int    `json:"far,omitempty"`    // chtimes: times further from 1970 than int64 nanoseconds reach (1 = year 2400/2300, 2 = 1648/1500, 3 = 3000/9999, 4 = year 1000/2)
+	Brk     string `json:"brk,omitempty"`    // the operating system refuses the drive for the duration of this one call ("missing" | "isdir"); set by the history runner
 	Members []Op   `json:"members,omitempty"`
 }
 
@@ -93,6 +95,9 @@ func (o Op) String() string {
 	case "chown":
 		return fmt.Sprintf("chown(%q,%d,%d)", o.A, o.Uid, o.Gid)
 	case "chtimes":
+		if o.Far != 0 {
+			return fmt.Sprintf("chtimes(%q,far times #%d)", o.A, o.Far)
+		}
 		return fmt.Sprintf("chtimes(%q,%d,%d)", o.A, o.At, o.Mt)
 	case "list":
 		return fmt.Sprintf("list(%q,%d)", o.A, o.N)
@@ -223,6 +228,10 @@ func execOp(rig *Rig, o Op) Outcome {
 		if o.Zone != 0 {
 			z := time.FixedZone("", o.Zone)
 			at, mt = at.In(z), mt.In(z)
+		}
+		if o.Far != 0 {
+			mt = [...]time.Time{time.Date(2400, 6, 1, 12, 0, 0, 500000000, time.UTC), time.Date(1648, 10, 24, 0, 0, 0, 0, time.UTC), time.Date(3000, 1, 1, 0, 0, 0, 1, time.UTC), time.Date(1000, 2, 3, 4, 5, 6, 7, time.UTC)}[(o.Far-1)%4]
+			at = [...]time.Time{time.Date(2300, 1, 1, 0, 0, 0, 0, time.UTC), time.Date(1500, 3, 4, 5, 6, 7, 8, time.UTC), time.Date(9999, 12, 31, 23, 59, 59, 0, time.UTC), time.Date(2, 1, 1, 0, 0, 0, 0, time.UTC)}[(o.Far-1)%4]
 		}
 		if o.N == -62135596800 { // witness: the zero time.Time (year 1), which nanoseconds since 1970 cannot express
 			at, mt = time.Time{}, time.Time{}
